@@ -56,3 +56,4 @@ def run(ctx, R):
     x86hsem.rule_mem_hsem(ctx, R)
     x86hsem.rule_fp_hsem(ctx, R)
     rvhsem.rule_mem_hsem(ctx, R, 'rvv')
+    rvhsem.rule_rvv_ss_hsem(ctx, R)
